@@ -481,3 +481,27 @@ def drawn_reconciliation(draw, max_obj=8, max_sp=8, max_fam=4, costs="free", ran
     ocol = draw(colours(len(inst.onodes))) if colour else None
     scol = draw(colours(len(inst.snodes))) if colour else None
     return rename_case(case, omap, smap, fmap, ocol, scol)
+
+
+def all_leaf_syntenies(leaves, nfam, ordered):
+    """Every assignment of a non-empty family list to each leaf over g0..g{nfam-1}: all sequences of
+    distinct families (ordered; f=2: 4 per leaf, f=3: 15) or all subsets in index order (unordered; 3 / 7),
+    such that every family occurs on some leaf (smaller family sets are the smaller nfam)."""
+    fams = [f"g{i}" for i in range(nfam)]
+    options = []
+    for r in range(1, nfam + 1):
+        for sub in itertools.combinations(fams, r):
+            options.extend(itertools.permutations(sub) if ordered else [sub])
+    for choice in itertools.product(options, repeat=len(leaves)):
+        if len({f for s in choice for f in s}) == nfam:
+            yield {l: list(s) for l, s in zip(leaves, choice)}
+
+
+def all_labelled_inputs(max_obj, max_sp, max_fam, ordered, min_obj=1):
+    for base in all_inputs(max_obj, max_sp, min_obj=min_obj):
+        leaves = list(base["leaf_object_species"])
+        for nfam in range(1, max_fam + 1):
+            for syn in all_leaf_syntenies(leaves, nfam, ordered):
+                case = dict(base)
+                case["leaf_syntenies"] = syn
+                yield case
